@@ -21,6 +21,22 @@ def o_shape(ctx):
     for opts, o in ctx["per"].items():
         for ty, t in o.types.items():
             if "exc" in t:
+                # the string views may have failed BECAUSE a record sits at the wrong depth:
+                # look at the record view alone
+                import io
+                import warnings
+                from docx2python import docx2python
+                with warnings.catch_warnings():
+                    warnings.simplefilter("ignore")
+                    d = docx2python(io.BytesIO(ctx["data"]), html=opts[0], duplicate_merged_cells=opts[1])
+                    try:
+                        pars = getattr(d, ty + "_pars")
+                    except Exception:  # noqa: BLE001
+                        pars = None
+                    finally:
+                        d.close()
+                if pars is not None and not depth_ok(pars, 4, lambda p: hasattr(p, "run_strings")):
+                    out.append(("shape", f"{ty}_pars has a paragraph record (or a list) at the wrong depth {opts}"))
                 continue
             if not depth_ok(t["plain"], 4, lambda s: isinstance(s, str)):
                 out.append(("shape", f"{ty} is not 4-deep with string leaves {opts}"))
